@@ -6,6 +6,7 @@ import (
 	"errors"
 	"math"
 	"strconv"
+	"strings"
 
 	"github.com/ozanh/ugo/internal/verifrt"
 	"github.com/ozanh/ugo/parser"
@@ -38,7 +39,7 @@ var verifC01Builtins = [...]verifBuiltinUse{
 }
 
 const verifC01NumForms = 22
-const verifC01NumSites = 10
+const verifC01NumSites = 14
 
 // verifC01Site wraps the call expression c into a statement sequence.
 func verifC01Site(site int, c string) string {
@@ -63,6 +64,17 @@ func verifC01Site(site int, c string) string {
 		return "out(" + c + "); return 0"
 	case 9:
 		return "return [" + c + " == " + c + ", " + c + " || 1, !" + c + "]"
+	// sites 10-13: a const literal is visible, which makes the compiler run
+	// its own optimizer pass (with a symbol table derived from the compiler's
+	// scopes) on every binary and unary expression
+	case 10:
+		return "const kq = 2\nreturn [" + c + " == kq, kq]"
+	case 11:
+		return "const kq = 2\nif kq == 2 { return !(" + c + ") }\nreturn 0"
+	case 12:
+		return "const kq = 2\nw := func() { return [" + c + " != kq, -kq] }\nreturn w()"
+	case 13:
+		return "const kq = 2\nfor i := 0; i < 1; i++ { if i == 0 { return [kq, " + c + " == " + c + "] } }\nreturn 0"
 	}
 	return "return " + c
 }
@@ -72,6 +84,17 @@ func verifC01Site(site int, c string) string {
 func verifC01Program(form int, b verifBuiltinUse, site int) (src string, globalShadow bool) {
 	n := b.name
 	use := verifC01Site(site, b.call)
+	if site >= 10 && site%2 == 1 && form != 3 && form != 4 {
+		// odd const sites: the const literal is declared before the binding,
+		// at the top level of the script
+		use = strings.Replace(use, "const kq = 2\n", "", 1)
+		src, globalShadow = verifC01ProgramWith(form, n, use)
+		return "const kq = 2\n" + src, globalShadow
+	}
+	return verifC01ProgramWith(form, n, use)
+}
+
+func verifC01ProgramWith(form int, n, use string) (src string, globalShadow bool) {
 	sf := `func(...a) { return "S" }`
 	switch form {
 	case 0: // :=
@@ -207,12 +230,22 @@ var verifC01FoldProgs = [...]string{
 	`param a; return [1, 2, 3][1 + 1 - a]`,
 	`param a; for i := 0; i < 2 + 1; i++ { if i == 1 + 1 { return i * a } }; return -1`,
 	`param a; return sprintf("%d-%s", 1 + 2, "x" + "y") + string(a)`,
+	// 26-33: const groups whose omitted values repeat the previous expression
+	`param a; const k = 10; const (x = iota + k, y, z); return [x, y, z, a]`,
+	`param a; const k = 10; f := func() { const (x = (iota + 1) * k, y, z); return [x, y, z] }; return [f(), a]`,
+	`param a; const k = 3; const (x = -iota - k, y, z = "s" + "t", w); return [x, y, z, w, a]`,
+	`param a; const k = 1; if a < 100 { const (x = k + 1, y, z); return [x, y, z] }; return k`,
+	`param a; const k = 1; if true { const (x = k + 1, k, y); return [x, k, y, a] }; return 0`,
+	`param a; const (p = 1 << iota, q, r); const (x = p + q, y = x * r); return [p, q, r, x, y, a]`,
+	`param a; const k = 2; const (x = k * k, y, z); k2 := k + a; return [x, y, z, k2]`,
+	`param a; const k = 7; g := func(k) { const (x = k + 1, y); return [x, y] }; return [g(a), k]`,
 }
 
 // VerifC01Fold: folding program "prog" at optimizer budget "limit".
 func VerifC01Fold() {
 	src := verifC01FoldProgs[verifrt.Param("prog")]
 	verifrt.Known("C01-negzero-constant", verifrt.Param("prog") == 13 || verifrt.Param("prog") == 12)
+	verifrt.Known("C01-const-group-repeated-expr-folded-in-place", verifrt.Param("prog") == 30)
 	verifrt.NoPanic("compile-or-run-panic", func() {
 		verifC01Compare(src, false, "", verifrt.Param("limit"))
 	})
